@@ -110,6 +110,19 @@ def main():
         got = ["raise", type(e).__name__]
       items.append((f"{lt}{'(regenerated)' if fn.startswith('gen_') else ''}[{', '.join(d for d, _, _ in sel)}]", got))
       texts.append(f"render ({fn} {lit})")
+  # merge Add with more than two operands: the reported type is sized for two (directed, on the real factory)
+  try:
+    import qkeras.quantizers as QZ_
+    from qkeras.qtools.quantized_operators import quantizer_factory as qf_
+    o3 = qf_.QuantizerFactory().make_quantizer(QZ_.quantized_bits(4, 3, 1))
+    m3 = mg.make_quantizer([(o3, None)] * 3, "Add").output
+    top = 2 ** (o3.bits - 1) - 1                        # largest code of each operand (no fraction bits)
+    cap = 2 ** (m3.bits - int(bool(m3.is_signed))) - 1
+    if m3.bits - int(bool(m3.is_signed)) - m3.int_bits == 0 and 3 * top > cap:
+      rep.finding("C17-merge-add-sized-for-two-operands", f"merge Add of three quantized_bits(4,3,1) operands reports bits={m3.bits}, int_bits={m3.int_bits}: "
+                  f"the sum {3 * top} of the three largest values exceeds the largest representable {cap}", {"operands": 3})
+  except Exception as e:  # pylint: disable=broad-except
+    rep.violation("merge-add-three-operands-raises", f"MergeFactory Add on three operands raised {type(e).__name__}: {str(e)[:200]}", {})
   # histories: the operators made above by ONE factory each are still alive; what each reports now must be what it reported when made
   n_late = 0
   for d_, o_, got_ in alive:
